@@ -9,6 +9,7 @@ import (
 	"os"
 	"path/filepath"
 	"sort"
+	"strconv"
 	"strings"
 	"sync/atomic"
 	"testing"
@@ -52,10 +53,16 @@ func modsFor(path string, n *node) []mod {
 
 func isAdd(m mod) bool { return strings.HasPrefix(m.Kind, "add-") }
 
-// applyMod performs the modification with plain os calls.
-func applyMod(root string, m mod) error {
+// applyMod performs the modification with plain os calls. phase (1 = before
+// the last scan, in warm-cache histories; 2 = after the last scan) selects the
+// new modification time and link target, so that a phase-2 modification always
+// differs from the state a phase-1 modification of the same kind produced.
+// Modifications that replace the inode first hard-link the old inode to
+// keep (when non-empty) so that the earlier state can be restored exactly.
+func applyMod(root string, m mod, phase int, keep string) error {
 	p := filepath.Join(root, filepath.FromSlash(m.Path))
-	later := baseTime.Add(time.Second)
+	later := baseTime.Add(time.Duration(phase) * time.Second)
+	newTarget := "t" + strconv.Itoa(7+phase)
 	switch m.Kind {
 	case "append": // size changes; mtime put back so that only the size differs
 		f, err := os.OpenFile(p, os.O_WRONLY|os.O_APPEND, 0)
@@ -95,7 +102,7 @@ func applyMod(root string, m mod) error {
 		if err != nil {
 			return err
 		}
-		return os.Chmod(p, st.Mode().Perm()|0o040)
+		return os.Chmod(p, st.Mode().Perm()^0o040)
 	case "chmodx": // executability toggled
 		st, err := os.Lstat(p)
 		if err != nil {
@@ -110,6 +117,11 @@ func applyMod(root string, m mod) error {
 		b, err := os.ReadFile(p)
 		if err != nil {
 			return err
+		}
+		if keep != "" {
+			if err := os.Link(p, keep); err != nil {
+				return err
+			}
 		}
 		tmp := filepath.Join(filepath.Dir(root), "newinode.tmp")
 		if err := os.WriteFile(tmp, b, st.Mode().Perm()); err != nil {
@@ -144,7 +156,7 @@ func applyMod(root string, m mod) error {
 		if err := os.Remove(p); err != nil {
 			return err
 		}
-		return os.Symlink("t9", p)
+		return os.Symlink(newTarget, p)
 	case "add-file":
 		return writeFile(filepath.Join(p, "n"), "user data", false, later)
 	case "add-dir":
@@ -155,12 +167,85 @@ func applyMod(root string, m mod) error {
 	return fmt.Errorf("unknown modification %q", m.Kind)
 }
 
+// restoreState puts the object at path back into exactly the state prior
+// (type, permission bits, size, modification time, identity, bytes, target)
+// that it had before a metadata-only modification of the given kind. For
+// "newinode" the earlier inode was kept as a hard link at keep; the inode that
+// is displaced now is itself kept at keepCurrent (when non-empty).
+func restoreState(root, path, kind string, prior finfo, keep, keepCurrent string) error {
+	p := filepath.Join(root, filepath.FromSlash(path))
+	switch kind {
+	case "retarget":
+		if err := os.Remove(p); err != nil {
+			return err
+		}
+		return os.Symlink(prior.Target, p)
+	case "newinode":
+		if keepCurrent != "" {
+			if err := os.Link(p, keepCurrent); err != nil {
+				return err
+			}
+		}
+		return os.Rename(keep, p)
+	}
+	// In-place kinds (chmod, chmodx, touch, rewrite): same inode.
+	if b, err := os.ReadFile(p); err != nil {
+		return err
+	} else if string(b) != prior.Data {
+		f, err := os.OpenFile(p, os.O_WRONLY, 0)
+		if err != nil {
+			return err
+		}
+		if _, err := f.WriteAt([]byte(prior.Data), 0); err != nil {
+			return err
+		}
+		if err := f.Close(); err != nil {
+			return err
+		}
+	}
+	if err := os.Chmod(p, os.FileMode(prior.Mode&0o7777)); err != nil {
+		return err
+	}
+	t := time.Unix(0, prior.Mtime)
+	return os.Chtimes(p, t, t)
+}
+
+// warmSpec describes a warm-cache history: two scans chained the way the
+// local endpoint chains them (scan #2 receives scan #1's cache and ignore
+// cache), with the metadata-only modification M1 separating them.
+//
+//	Dir "fwd": scan #1 . M1 . scan #2 . mods . Transition   (scan-time state = tree with M1)
+//	Dir "rev": M1 . scan #1 . undo M1 . scan #2 . mods . Transition   (scan-time state = tree)
+//
+// The modification kind "restore1" in Mods puts the object back into exactly
+// the state scan #1 saw - the one post-scan modification that a cold scan can
+// never be confused by, but a stale cache entry can.
+type warmSpec struct {
+	Dir   string `json:"dir"`
+	M1    mod    `json:"m1"`
+	Accel bool   `json:"accel,omitempty"` // scan #2 is accelerated: baseline = snapshot #1, re-check path = M1.Path
+}
+
+// m1KindsFor lists the metadata-only modifications usable as M1.
+func m1KindsFor(n *node) []string {
+	switch {
+	case n == nil:
+		return nil
+	case n.Kind == "f":
+		return []string{"chmod", "chmodx", "touch", "rewrite", "newinode"}
+	case n.Kind == "l":
+		return []string{"retarget"}
+	}
+	return nil
+}
+
 // c8case is one execution of C08.
 type c8case struct {
-	Tree *node  `json:"tree"`
-	Plan plan   `json:"plan"`
-	Mods []mod  `json:"mods"`
-	Env  string `json:"env"`
+	Tree *node     `json:"tree"`
+	Plan plan      `json:"plan"`
+	Mods []mod     `json:"mods"`
+	Env  string    `json:"env"`
+	Warm *warmSpec `json:"warm,omitempty"`
 }
 
 func (c c8case) key() string {
@@ -168,7 +253,11 @@ func (c c8case) key() string {
 	for _, m := range c.Mods {
 		ms = append(ms, m.String())
 	}
-	return fmt.Sprintf("tree=%s plan=%s mods=[%s] env=%s", c.Tree, c.Plan, strings.Join(ms, ","), c.Env)
+	k := fmt.Sprintf("tree=%s plan=%s mods=[%s] env=%s", c.Tree, c.Plan, strings.Join(ms, ","), c.Env)
+	if c.Warm != nil {
+		k += fmt.Sprintf(" warm=%s:%s accel=%v", c.Warm.Dir, c.Warm.M1, c.Warm.Accel)
+	}
+	return k
 }
 
 // runC8 executes one case and applies the C08 oracle. With no modifications it
@@ -182,10 +271,46 @@ func runC8(w *world, c c8case, verbose func(string, ...any)) (what string, appli
 	}
 	infra(w.reset())
 	infra(materialize(w.root, c.Tree))
-	snap, cache, err := w.scan(nil)
-	infra(err)
-	if !snap.Content.Equal(c.Tree.entry(), true) {
-		panic(fmt.Sprintf("INFRA: initial scan %s differs from generated tree %s", describe(snap.Content), c.Tree))
+	keep0, keep1 := filepath.Join(w.base, "keep0"), filepath.Join(w.base, "keep1")
+	var snap *core.Snapshot
+	var cache *core.Cache
+	var state1 finfo // the M1 object as scan #1 saw it
+	if c.Warm == nil {
+		// Cold history: one scan.
+		var err error
+		snap, cache, err = w.scan(nil)
+		infra(err)
+		if !snap.Content.Equal(c.Tree.entry(), true) {
+			panic(fmt.Sprintf("INFRA: initial scan %s differs from generated tree %s", describe(snap.Content), c.Tree))
+		}
+	} else {
+		m1 := c.Warm.M1
+		slm := core.SymbolicLinkMode_SymbolicLinkModePortable
+		var state0 finfo
+		if c.Warm.Dir == "rev" {
+			s0, err := snapshot(w.root)
+			infra(err)
+			state0 = s0[m1.Path]
+			infra(applyMod(w.root, m1, 1, keep0))
+		}
+		s1, err := snapshot(w.root)
+		infra(err)
+		state1 = s1[m1.Path]
+		snap1, cache1, ic1, err := w.scanFull(nil, nil, nil, nil, slm)
+		infra(err)
+		if c.Warm.Dir == "rev" {
+			infra(restoreState(w.root, m1.Path, m1.Kind, state0, keep0, keep1))
+		} else {
+			infra(applyMod(w.root, m1, 1, keep1))
+		}
+		// Scan #2 - "the preceding scan" - is chained on scan #1's caches.
+		var baseline *core.Snapshot
+		var recheck map[string]bool
+		if c.Warm.Accel {
+			baseline, recheck = snap1, map[string]bool{m1.Path: true}
+		}
+		snap, cache, _, err = w.scanFull(baseline, recheck, cache1, ic1, slm)
+		infra(err)
 	}
 	changes := make([]*core.Change, len(c.Plan))
 	for i, ch := range c.Plan {
@@ -193,9 +318,22 @@ func runC8(w *world, c c8case, verbose func(string, ...any)) (what string, appli
 		infra(w.stageFor(ch.Path, ch.New, nil))
 	}
 
-	// The modifications happen after the scan and before the transition.
+	if c.Warm != nil {
+		// A plan whose new value equals what scan #2 recorded is no change at all.
+		for _, ch := range changes {
+			if ch.New.Equal(ch.Old, true) {
+				return "", false, -1
+			}
+		}
+	}
+
+	// The modifications happen after the (last) scan and before the transition.
 	for _, m := range c.Mods {
-		infra(applyMod(w.root, m))
+		if m.Kind == "restore1" {
+			infra(restoreState(w.root, m.Path, c.Warm.M1.Kind, state1, keep1, ""))
+		} else {
+			infra(applyMod(w.root, m, 2, ""))
+		}
 	}
 	modSnap, err := snapshot(w.root)
 	infra(err)
@@ -346,7 +484,7 @@ func TestC08(t *testing.T) {
 			groups = append(groups, group{tree, p})
 		}
 	}
-	r.Rule(fmt.Sprintf("every base tree (%d) x every single-change plan on every path (thorough: also two-change plans, and the trees without the bystander b) x every modification set applied between core.Scan and core.Transition: one modification, and for single-change plans every applicable pair at two different paths, from {file: append(size), touch(mtime), rewrite(same size, new mtime), chmod, chmod +-x, new inode with identical bytes/mode/mtime, ->dir, ->link; link: retarget, ->file, ->dir; directory: new child file/dir/link, ->file, ->link; planned creation target: a file/dir/link appears} at every path inside the plan's targets; creation targets additionally under {EXDEV staging, no RENAME_NOREPLACE}. Non-trivial = the same plan without modification was applied completely and without problems (control run), so the modified object is one the plan deletes or replaces; distinct by (tree, plan, modifications, env)", len(trees(thorough))))
+	r.Rule(fmt.Sprintf("every base tree (%d) x every single-change plan on every path (thorough: also two-change plans, and the trees without the bystander b) x every modification set applied between core.Scan and core.Transition: one modification, and for single-change plans every applicable pair at two different paths, from {file: append(size), touch(mtime), rewrite(same size, new mtime), chmod, chmod +-x, new inode with identical bytes/mode/mtime, ->dir, ->link; link: retarget, ->file, ->dir; directory: new child file/dir/link, ->file, ->link; planned creation target: a file/dir/link appears} at every path inside the plan's targets; creation targets additionally under {EXDEV staging, no RENAME_NOREPLACE}. Warm-cache histories for single-change plans: two scans chained as the local endpoint chains them (scan #2 gets scan #1's cache and ignore cache; thorough: also accelerated with baseline + re-check path), separated by a metadata-only modification M1 in {chmod, chmod +-x, mtime only, same-size rewrite, new inode with same bytes; link retarget} at every file/link path in the plan's targets, in both orders (scan #1 . M1 . scan #2, and M1 . scan #1 . undo . scan #2), followed by one post-scan modification from the full list plus 'restore exactly the state scan #1 saw'. Non-trivial = the same plan without modification was applied completely and without problems (control run), so the modified object is one the plan deletes or replaces (for warm histories: the control run of the same history); distinct by (tree, plan, modifications, env, warm history)", len(trees(thorough))))
 	r.Assume("modifications are applied between the scan and the transition, never inside one operation (the documented check-to-unlink RACE windows are excluded by the property's quantifier)",
 		"every modification changes at least one of type, permission bits, size, modification time, file identity, link target or adds a directory entry; a same-size rewrite that also restores the modification time is outside the property",
 		"'reported as problems' is read as: at least one returned problem whose path is the modified path or lies below it",
@@ -407,6 +545,56 @@ func TestC08(t *testing.T) {
 				}
 				if gi%53 == 0 && len(ms) == 1 && ms[0].Kind != "append" {
 					r.Sample(c)
+				}
+			}
+		}
+
+		// Warm-cache histories (single-change plans): scan #1, the metadata-only
+		// modification M1 (or its undoing), scan #2 chained on scan #1's caches,
+		// then one post-scan modification - among them the exact restoration of
+		// the state scan #1 saw - and the transition.
+		if len(g.plan) != 1 {
+			return
+		}
+		accels := []bool{false}
+		if thorough {
+			accels = []bool{false, true}
+		}
+		for _, q := range affectedPaths(g.tree, g.plan) {
+			n := g.tree.at(q)
+			for _, k1 := range m1KindsFor(n) {
+				for _, dir := range []string{"fwd", "rev"} {
+					for _, accel := range accels {
+						ws := &warmSpec{Dir: dir, M1: mod{q, k1}, Accel: accel}
+						// Control: the same history without a post-scan modification.
+						_, wapplied, np := runC8(w, c8case{Tree: g.tree, Plan: g.plan, Env: "plain", Warm: ws}, nil)
+						l.Case("", false)
+						if np < 0 {
+							l.Outcome("warm-plan-is-no-change")
+							continue
+						}
+						if wapplied {
+							l.Outcome("warm-control-applied")
+						} else {
+							l.Outcome("warm-control-refused")
+						}
+						m2s := append([]mod{{q, "restore1"}}, modsFor(q, n)...)
+						for _, m2 := range m2s {
+							c := c8case{Tree: g.tree, Plan: g.plan, Mods: []mod{m2}, Env: "plain", Warm: ws}
+							what, _, np := runC8(w, c, nil)
+							l.Case(c.key(), wapplied)
+							if what != "" {
+								l.Outcome("violation(warm)")
+								cc := c
+								r.Violate(c.key(), what, cc, func() bool { v, _, _ := runC8(w, cc, nil); return v != "" })
+							} else {
+								l.Outcome(fmt.Sprintf("warm kept,%d-problem(s)", min(np, 3)))
+							}
+							if gi%101 == 0 && m2.Kind == "restore1" && k1 == "chmod" {
+								r.Sample(c)
+							}
+						}
+					}
 				}
 			}
 		}
